@@ -550,7 +550,9 @@ where
                                y: &[N],
                                data: &mut T|
          -> Result<BVector<N, D>, UserError> {
-            bdf.scratch_pad = -(bdf.derivative)(t, y, data)? * bdf.dt * bdf.higher_coefficients[0];
+            bdf.scratch_pad = -(bdf.derivative)(t + bdf.dt.real(), y, data)?
+                * bdf.dt
+                * bdf.higher_coefficients[0];
             for (ind, &coeff) in bdf.higher_coefficients.column(0).iter().enumerate().skip(1) {
                 bdf.scratch_pad += &bdf.prev_values[O - ind].1 * coeff;
             }
@@ -564,7 +566,9 @@ where
                               y: &[N],
                               data: &mut T|
          -> Result<BVector<N, D>, UserError> {
-            bdf.scratch_pad = -(bdf.derivative)(t, y, data)? * bdf.dt * bdf.lower_coefficients[0];
+            bdf.scratch_pad = -(bdf.derivative)(t + bdf.dt.real(), y, data)?
+                * bdf.dt
+                * bdf.lower_coefficients[0];
             for (ind, &coeff) in bdf.higher_coefficients.column(0).iter().enumerate().skip(1) {
                 bdf.scratch_pad += &bdf.prev_values[O - ind].1 * coeff;
             }
